@@ -278,7 +278,10 @@ Definition rf_dead : rfilter := {| rf_from := 0; rf_cols := []; rf_next := 0; rf
 Inductive op :=
 | Store (b : block)
 | Revert
-| Prune (e : N)               (* pruner.PruneUpto(e) with a batch rotated after every block *)
+| Prune (keep_hist : bool) (e : N)
+                              (* pruner.PruneUpto(e) with a batch rotated after every block; keep_hist: the
+                                 node runs the new state backend, whose history buckets PruneUpto does not
+                                 touch (it deletes the Deprecated* history buckets only) *)
 | SetL1 (h : N)
 | Snapshot                    (* WriteRunningEventFilter *)
 | Restart (graceful : bool).  (* graceful: snapshot first; both: memory := reinit disk, plus the direct
@@ -304,7 +307,7 @@ Definition revert_batch (hb : block) (ws : list wr) : batch :=
 
 (* pruneHashKeyedUpto: the per-block batches for blocks [n, n+cnt); stops at a missing state update
    (the call returns the error, earlier rotated batches stay committed). Result: batches, completed? *)
-Fixpoint prune_blocks (d : disk) (e n : N) (cnt : nat) (carry : list wr) : list batch * bool :=
+Fixpoint prune_blocks (d : disk) (kh : bool) (e n : N) (cnt : nat) (carry : list wr) : list batch * bool :=
   match cnt with
   | O => ([], true)
   | S c =>
@@ -312,8 +315,8 @@ Fixpoint prune_blocks (d : disk) (e n : N) (cnt : nat) (carry : list wr) : list 
       | None => ([], false)
       | Some sb =>
           let ws := carry ++ (if n + 1 =? e then [] else [WDel FHashNum n (b_id sb)])
-                    ++ [WDel FTxIdx n (b_id sb); WDel FHist n (b_id sb)] in
-          let (r, ok) := prune_blocks d e (n + 1) c [] in
+                    ++ [WDel FTxIdx n (b_id sb)] ++ (if kh then [] else [WDel FHist n (b_id sb)]) in
+          let (r, ok) := prune_blocks d kh e (n + 1) c [] in
           (ws :: r, ok)
       end
   end.
@@ -321,11 +324,11 @@ Fixpoint prune_blocks (d : disk) (e n : N) (cnt : nat) (carry : list wr) : list 
 Definition block_hash_lag : N := 10.
 
 Definition prune_data_batch (e : N) : batch :=
-  [WDelBelow FHeader (if block_hash_lag <? e then e - block_hash_lag else 0);
-   WDelBelow FCommit e; WDelBelow FSU e; WDelBelow FTxs e]
+  [WDelBelow FCommit e; WDelBelow FSU e; WDelBelow FTxs e;
+   WDelBelow FHeader (if block_hash_lag <? e then e - block_hash_lag else 0)]
   ++ (if e <? W then [] else [WWindowsBelow (align e)]).
 
-Definition prune_plan (d : disk) (e : N) : list batch :=
+Definition prune_plan (d : disk) (kh : bool) (e : N) : list batch :=
   match floor d with
   | None => []
   | Some start =>
@@ -341,7 +344,7 @@ Definition prune_plan (d : disk) (e : N) : list batch :=
         match carve with
         | None => []                                   (* error before anything is written *)
         | Some cw =>
-            let (bs, ok) := prune_blocks d e start (N.to_nat (e - start)) cw in
+            let (bs, ok) := prune_blocks d kh e start (N.to_nat (e - start)) cw in
             if ok then bs ++ [[]; prune_data_batch e] else bs
         end
   end.
@@ -370,7 +373,7 @@ Definition plan (o : op) (d : disk) (m : rfilter) : list batch * rfilter :=
           | _, _ => ([], m)
           end
       end
-  | Prune e => (prune_plan d e, m)
+  | Prune kh e => (prune_plan d kh e, m)
   | SetL1 h => ([[WL1 h]], m)
   | Snapshot => (if rf_err m then [] else [[WSnap m]], m)
   | Restart g =>
@@ -446,8 +449,13 @@ Definition opt_eqb (a b : option N) : bool :=
 Definition windows_ok (h : N) (d : disk) : bool :=
   forallb (fun e => (fst e mod W =? 0) && (fst e + W - 1 <=? h)) (d_windows d).
 
+(* a persisted running-filter snapshot is a well-formed filter: aligned window, no init error, next
+   inside [from, to] *)
+Definition rf_wf (s : rfilter) : bool :=
+  (rf_from s mod W =? 0) && negb (rf_err s) && (rf_from s <=? rf_next s) && (rf_next s <=? rf_to s).
+
 Definition snap_ok (d : disk) : bool :=
-  match d_snap d with Some s => rf_from s mod W =? 0 | None => true end.
+  match d_snap d with Some s => rf_wf s | None => true end.
 
 Definition is_nil {A} (l : list A) : bool := match l with [] => true | _ => false end.
 
@@ -484,31 +492,24 @@ Definition mem_sync (d : disk) (m : rfilter) : bool :=
   | None => (rf_next m =? 0) && (rf_from m =? 0)
   end.
 
-(* assumptions per operation, evaluated in the state the operation starts from *)
-Definition op_ok (d : disk) (m : rfilter) (o : op) : bool :=
-  match o with
-  | Revert =>
-      match d_height d with
-      | Some h => (negb ((h + 1) mod W =? 0) || mem_sync d m)  (* reverting the last block of a persisted
-                                                                  window: the filter must be in sync *)
-                  && ((h =? 0) || block_full d (h - 1))        (* not onto a pruned block *)
-      | None => true
-      end
-  | Prune e => match d_height d with Some h => e <=? h | None => true end   (* the head is retained *)
-  | _ => true
+(* headers are contiguous up to the head, and every block that still has commitments (= is retained,
+   pruner.OldestRetainedBlock) has its header: what the filter initialisation reads is there *)
+Definition hdr_present (d : disk) (n : N) : bool :=
+  match header d n with Some _ => true | None => false end.
+
+Definition cont (d : disk) : bool :=
+  match d_height d with
+  | None => true
+  | Some h => forallb (fun x => (h <=? b_num x) || hdr_present d (b_num x + 1)) (d_fam d FHeader)
+              && forallb (fun x => hdr_present d (b_num x)) (d_fam d FCommit)
   end.
 
-Fixpoint ops_ok (ops : list op) (st : disk * rfilter) : bool :=
-  match ops with
-  | [] => true
-  | o :: r => op_ok (fst st) (snd st) o && ops_ok r (step st o)
-  end.
-
-(* the purely environmental part of op_ok (no clause about the in-memory filter) *)
+(* assumptions about the environment per operation, evaluated in the state the operation starts from:
+   no Revert onto a pruned block, Prune keeps the head *)
 Definition op_env (d : disk) (o : op) : bool :=
   match o with
   | Revert => match d_height d with Some h => (h =? 0) || block_full d (h - 1) | None => true end
-  | Prune e => match d_height d with Some h => e <=? h | None => true end
+  | Prune _ e => match d_height d with Some h => e <=? h | None => true end
   | _ => true
   end.
 
